@@ -1,6 +1,8 @@
 package main
 
 import (
+	"go/token"
+	"go/types"
 	"strings"
 
 	"golang.org/x/tools/go/ssa"
@@ -226,4 +228,182 @@ func ruleALPNAndSRTP(c *Ctx, r *Report) {
 		r.Check(ok2, rule, short(s.Fn)+":srtp-commit", c.ipos(call), "committed SRTP decision comes from NegotiateSRTP / ValidateSRTPSelection", "an SRTP profile is committed that did not come from the negotiation helpers: "+c.describeAll(ls))
 	}
 	r.Floor(rule+":srtp", m, 5)
+}
+
+// ruleExactMembership (C11): "what both sides allow" is an intersection by equality. Wherever a
+// value is looked up in a list with a predicate that compares a list element with a captured
+// value of the same type (slices.ContainsFunc / IndexFunc and friends), the predicate must be
+// equality of the whole value: comparing one field of a struct, or folding case, makes a value
+// the peer never offered (or the local policy never allowed) count as common.
+func ruleExactMembership(c *Ctx, r *Report) {
+	const rule = "exact-membership"
+	n := 0
+	for _, s := range c.CallsTo(func(name string) bool {
+		return strings.HasPrefix(name, "slices.ContainsFunc") || strings.HasPrefix(name, "slices.IndexFunc")
+	}) {
+		call, ok := s.Call.(*ssa.Call)
+		if !ok || len(call.Call.Args) != 2 {
+			continue
+		}
+		mc, ok := call.Call.Args[1].(*ssa.MakeClosure)
+		if !ok {
+			continue
+		}
+		pred := mc.Fn.(*ssa.Function)
+		if len(pred.Params) != 1 {
+			continue
+		}
+		pt := pred.Params[0].Type()
+		// a captured value of the element type
+		var captured []*ssa.FreeVar
+		for _, fv := range pred.FreeVars {
+			ft := fv.Type()
+			if p, isPtr := ft.(*types.Pointer); isPtr && types.Identical(p.Elem(), pt) {
+				captured = append(captured, fv)
+			} else if types.Identical(ft, pt) {
+				captured = append(captured, fv)
+			}
+		}
+		if len(captured) != 1 {
+			continue
+		}
+		n++
+		r.Sites++
+		key := short(s.Fn) + ":" + typeShort(pt)
+		// which parts of the element are compared with the same parts of the captured value
+		whole := false
+		fields := map[string]bool{}
+		weak := ""
+		isElem := func(v ssa.Value) (string, bool) { // "" = whole value, "F" = field F
+			v = stripConv(v)
+			if v == ssa.Value(pred.Params[0]) {
+				return "", true
+			}
+			if u, ok := v.(*ssa.UnOp); ok && u.Op == token.MUL {
+				if al, isAl := u.X.(*ssa.Alloc); isAl {
+					for _, ref := range *al.Referrers() {
+						if st, isSt := ref.(*ssa.Store); isSt && st.Val == ssa.Value(pred.Params[0]) {
+							return "", true
+						}
+					}
+				}
+			}
+			if _, f, base, ok := fieldLoad(v); ok {
+				if b2, isLoadP := isElemBase(base, pred.Params[0]); isLoadP {
+					_ = b2
+					return f, true
+				}
+			}
+			return "", false
+		}
+		isCap := func(v ssa.Value) (string, bool) {
+			v = stripConv(v)
+			if u, ok := v.(*ssa.UnOp); ok && u.Op == token.MUL && u.X == ssa.Value(captured[0]) {
+				return "", true
+			}
+			if v == ssa.Value(captured[0]) {
+				return "", true
+			}
+			if _, f, base, ok := fieldLoad(v); ok {
+				b := base
+				if u, isU := b.(*ssa.UnOp); isU {
+					b = u.X
+				}
+				if b == ssa.Value(captured[0]) {
+					return f, true
+				}
+			}
+			return "", false
+		}
+		if pred.Synthetic != "" {
+			// a method value such as version.Equal: an equality method of the element type
+			for _, b := range pred.Blocks {
+				for _, in := range b.Instrs {
+					if cl, ok := in.(*ssa.Call); ok && strings.HasSuffix(calleeName(&cl.Call), ").Equal") {
+						whole = true
+					}
+				}
+			}
+		}
+		for _, b := range pred.Blocks {
+			for _, in := range b.Instrs {
+				switch x := in.(type) {
+				case *ssa.BinOp:
+					if x.Op != token.EQL && x.Op != token.NEQ {
+						continue
+					}
+					for _, pr := range [][2]ssa.Value{{x.X, x.Y}, {x.Y, x.X}} {
+						fe, okE := isElem(pr[0])
+						fc, okC := isCap(pr[1])
+						if okE && okC && fe == fc {
+							if fe == "" {
+								whole = true
+							} else {
+								fields[fe] = true
+							}
+						}
+					}
+				case *ssa.Call:
+					name := calleeName(&x.Call)
+					if name == "strings.EqualFold" || name == "bytes.EqualFold" || strings.HasPrefix(name, "strings.ToLower") || strings.HasPrefix(name, "strings.ToUpper") || strings.HasPrefix(name, "strings.HasPrefix") || strings.HasPrefix(name, "strings.Contains") {
+						weak = name
+					}
+					if name == "bytes.Equal" {
+						fe, okE := isElem(x.Call.Args[0])
+						fc, okC := isCap(x.Call.Args[1])
+						if okE && okC && fe == fc {
+							if fe == "" {
+								whole = true
+							} else {
+								fields[fe] = true
+							}
+						}
+					}
+				}
+			}
+		}
+		exact := whole && weak == ""
+		detail := "whole-value equality"
+		if !exact && weak == "" {
+			if st, isStruct := pt.Underlying().(*types.Struct); isStruct && len(fields) > 0 {
+				var missing []string
+				for i := 0; i < st.NumFields(); i++ {
+					if !fields[fieldName(st.Field(i))] {
+						missing = append(missing, fieldName(st.Field(i)))
+					}
+				}
+				exact = len(missing) == 0
+				detail = "all fields compared"
+				if !exact {
+					detail = "fields not compared: " + strings.Join(missing, ",")
+				}
+			} else {
+				detail = "no equality between the element and the captured value found"
+			}
+		}
+		if weak != "" {
+			detail = "uses " + weak
+		}
+		r.Check(exact, rule, key, c.ipos(call), "membership test is equality of the whole value", "a list is searched for a value with a predicate weaker than equality ("+detail+"): a value that is not in the list counts as present, so a parameter outside the peer's offer or the local policy can be selected")
+	}
+	r.Extra["exact_membership_predicates"] = n
+}
+
+func isElemBase(base ssa.Value, p *ssa.Parameter) (ssa.Value, bool) {
+	if base == ssa.Value(p) {
+		return base, true
+	}
+	// value parameter spilled to a cell
+	b := base
+	if u, ok := b.(*ssa.UnOp); ok {
+		b = u.X
+	}
+	if al, ok := b.(*ssa.Alloc); ok {
+		for _, ref := range *al.Referrers() {
+			if st, isSt := ref.(*ssa.Store); isSt && st.Val == ssa.Value(p) && st.Addr == ssa.Value(al) {
+				return base, true
+			}
+		}
+	}
+	return nil, false
 }
